@@ -302,7 +302,7 @@ def files(tier):
     import itertools
     out += [('int', ((a, 1), (b, 1), (c, 1))) for a, b, c in itertools.product((1, 2, 3, 4), repeat=3)]
     # short last chunks in segments that are not the last one
-    for kind in ('shortmid', 'shortmid-il', 'shortmid-daqmx'):
+    for kind in ('shortmid', 'shortmid-il', 'shortmid-daqmx', 'shortmid-slow'):
         opts_ = [(2, 2), (3, 2), (2, 3), (3, 1)] if kind == 'shortmid' else [(2, 2), (3, 2), (2, 3)]
         out += [(kind, (x,)) for x in opts_]
         out += [(kind, (x, y)) for x in opts_ for y in opts_ + ['abs']]
@@ -326,7 +326,7 @@ def run(ctx):
     cov = {'evaluations': c['ops'], 'files': c['files'], 'distinct_nontrivial': c['nontrivial'],
            'rule': 'evaluations = individual window/slice/index operations; distinct_nontrivial = distinct files '
                    '(distinct parameter tuples incl. cut offset) whose channel holds >= 2 values',
-           'gap_files': c['gap_files'], 'truncated_files': c['truncated_files'], 'kinds': F.F4_KINDS + ['shortmid', 'shortmid-il', 'shortmid-daqmx'],
+           'gap_files': c['gap_files'], 'truncated_files': c['truncated_files'], 'kinds': F.F4_KINDS + ['shortmid', 'shortmid-il', 'shortmid-daqmx', 'shortmid-slow'],
            'outcomes': m['outcomes'], 'samples': m['samples'][:5], 'exhaustive': True, 'vacuity_failures': vac}
     return cov, m['violations']
 
